@@ -35,7 +35,7 @@
 // The library is linked statically into this executable, so its calls to the libc entry points below bind to these definitions.
 // While `fsArmed` every call is counted; the fsCrashAt-th call ends the process on the spot with _exit (no stdio flush: the kernel state
 // is exactly what a SIGKILL at that instant leaves); the fsFailAt-th call fails the way a full or broken disk makes it fail.
-static volatile long fsCount = 0; static volatile int fsArmed = 0; static long fsCrashAt = 0, fsFailAt = 0;
+static volatile long fsCount = 0; static volatile int fsArmed = 0; static long fsCrashAt = 0, fsFailAt = 0, fsPauseAt = 0;
 static char fsLog[131072]; static size_t fsLogLen = 0;
 static void fsNote(const char* what) { if (fsLogLen + strlen(what) + 2 < sizeof fsLog) { memcpy(fsLog + fsLogLen, what, strlen(what)); fsLogLen += strlen(what); fsLog[fsLogLen++] = ','; fsLog[fsLogLen] = 0; } }
 // returns 1 when this call has to fail
@@ -43,6 +43,11 @@ static int fsTick(const char* what) {
 	if (!fsArmed) return 0;
 	long n = ++fsCount; fsNote(what);
 	if (fsCrashAt && n == fsCrashAt) _exit(137);
+	if (fsPauseAt && n == fsPauseAt) {
+		// C15 at file-operation granularity: tell the coordinator where we stand and wait (inside the library call, locks held as they are) for its "resume" line
+		const char* m = "~ paused\n"; if (write(1, m, 9)) {}
+		char c; while (read(0, &c, 1) == 1 && c != '\n') {}
+	}
 	return (fsFailAt && n == fsFailAt) ? 1 : 0;
 }
 template <typename F> static F realfn(const char* name) { return (F)dlsym(RTLD_NEXT, name); }
@@ -420,6 +425,46 @@ static void run(const std::vector<std::string>& t) {
 		else if (k == "chmod") rc = ::chmod(path.c_str(), (mode_t)strtoul(t[3].c_str(), NULL, 8));
 		else if (k == "flip") { FILE* f = fopen(path.c_str(), "r+b"); if (!f) rc = -1; else { fseek(f, (long)N(3), SEEK_SET); int c = fgetc(f); if (c == EOF) rc = -1; else { fseek(f, (long)N(3), SEEK_SET); fputc(c ^ (int)strtoul(t[4].c_str(), NULL, 16), f); } fclose(f); } }
 		else if (k == "poke") { Bytes b; unhex(t[4], b); FILE* f = fopen(path.c_str(), "r+b"); if (!f) rc = -1; else { fseek(f, 0, SEEK_END); long sz = ftell(f); long off = (long)N(3); if (off > sz) rc = -1; else { fseek(f, off, SEEK_SET); if (!b.empty()) fwrite(b.data(), 1, b.size(), f); } fclose(f); } }
+		else if (k == "grow" || k == "shrink" || k == "retype" || k == "rekind" || k == "dup" || k == "drop") {
+			// structured damage: the file stays a well-formed attribute sequence, one attribute is changed.  selector t<typehex> | i<index>
+			//   grow <sel> <n> / shrink <sel> <n> (byte strings: length field and data together) | retype <sel> <newtypehex> | rekind <sel> <kind> <payloadhex> | dup <sel> | drop <sel>
+			std::ifstream f(path.c_str(), std::ios::binary); Bytes c((std::istreambuf_iterator<char>(f)), std::istreambuf_iterator<char>()); f.close();
+			struct A { unsigned long ty, kind; Bytes pay; }; std::vector<A> as; size_t pos = 8; bool okp = c.size() >= 8;
+			auto rd8 = [&](size_t at, unsigned long& v) { if (at + 8 > c.size()) return false; v = 0; for (int i = 0; i < 8; i++) v = (v << 8) | c[at + i]; return true; };
+			auto be8 = [](unsigned long v) { Bytes b(8); for (int i = 7; i >= 0; i--) { b[i] = v & 0xff; v >>= 8; } return b; };
+			while (okp && pos < c.size()) {
+				A a; unsigned long n = 0;
+				if (!rd8(pos, a.ty) || !rd8(pos + 8, a.kind)) { okp = false; break; }
+				pos += 16; size_t plen = 0;
+				if (a.kind == 1) plen = 1; else if (a.kind == 2) plen = 8;
+				else if (a.kind == 3 || a.kind == 4) { if (!rd8(pos, n)) { okp = false; break; } plen = 8 + n; }
+				else if (a.kind == 5) { if (!rd8(pos, n)) { okp = false; break; } plen = 8 + 8 * n; }
+				else { okp = false; break; }
+				if (pos + plen > c.size()) { okp = false; break; }
+				a.pay.assign(c.begin() + pos, c.begin() + pos + plen); pos += plen; as.push_back(a);
+			}
+			long idx = -1;
+			if (okp && t.size() > 3) {
+				if (t[3][0] == 'i') idx = atol(t[3].c_str() + 1);
+				else { unsigned long ty = strtoul(t[3].c_str() + 1, NULL, 16); for (size_t i = 0; i < as.size(); i++) if (as[i].ty == ty) { idx = (long)i; break; } }
+			}
+			if (!okp || idx < 0 || (size_t)idx >= as.size()) rc = -1;
+			else {
+				A& a = as[idx];
+				if (k == "grow" && a.kind == 3) { size_t n = N(4); a.pay.insert(a.pay.end(), n, 'A'); Bytes l = be8(a.pay.size() - 8); std::copy(l.begin(), l.end(), a.pay.begin()); }
+				else if (k == "shrink" && a.kind == 3) { size_t n = std::min((size_t)N(4), a.pay.size() - 8); a.pay.resize(a.pay.size() - n); Bytes l = be8(a.pay.size() - 8); std::copy(l.begin(), l.end(), a.pay.begin()); }
+				else if (k == "retype") a.ty = strtoul(t[4].c_str(), NULL, 16);
+				else if (k == "rekind") { a.kind = N(4); a.pay.clear(); if (t.size() > 5 && t[5] != ".") unhex(t[5], a.pay); }
+				else if (k == "dup") { A b = a; as.insert(as.begin() + idx, b); }
+				else if (k == "drop") as.erase(as.begin() + idx);
+				else rc = -1;
+				if (rc == 0) {
+					Bytes o(c.begin(), c.begin() + 8);
+					for (auto& x : as) { Bytes b1 = be8(x.ty), b2 = be8(x.kind); o.insert(o.end(), b1.begin(), b1.end()); o.insert(o.end(), b2.begin(), b2.end()); o.insert(o.end(), x.pay.begin(), x.pay.end()); }
+					FILE* w = fopen(path.c_str(), "wb"); if (!w) rc = -1; else { if (!o.empty()) fwrite(o.data(), 1, o.size(), w); fclose(w); }
+				}
+			}
+		}
 		else if (k == "write" || k == "append") { Bytes b; if (t[3] != ".") unhex(t[3], b); FILE* f = fopen(path.c_str(), k == "write" ? "wb" : "ab"); if (!f) rc = -1; else { if (!b.empty()) fwrite(b.data(), 1, b.size(), f); fclose(f); } }
 		else { fprintf(out, "= BADOP\n"); return; }
 		fprintf(out, "= %d\n", rc == 0 ? 0 : 1);
@@ -706,6 +751,30 @@ static void run(const std::vector<std::string>& t) {
 			(rv2 == CKR_OK && a2[0].ulValueLen != (CK_ULONG)-1) ? (a2[0].ulValueLen ? hex(val, a2[0].ulValueLen).c_str() : ".") : "-",
 			(rv3 == CKR_OK && a3[0].ulValueLen != (CK_ULONG)-1) ? (a3[0].ulValueLen ? hex(cv, a3[0].ulValueLen).c_str() : ".") : "-");
 	}
+	else if (op == "misc") {
+		// misc h slot key datahex: the entry points no other op reaches (C17: all 68), each with valid buffers; prints the return codes in a fixed order
+		CK_ULONG h = H(1); CK_SLOT_ID sl = slotArg(t.size() > 2 ? t[2] : "0"); CK_ULONG k = t.size() > 3 ? handleArg(t[3]) : 0; bool dn = false; Bytes d = t.size() > 4 ? dataArg(t[4], &dn) : Bytes();
+		CK_BYTE_PTR dp = d.empty() ? (CK_BYTE_PTR)"" : d.data(); Bytes o1(4096 + 64, 0xA5); CK_ULONG ol; std::vector<CK_RV> rvs;
+		CK_INFO inf; memset(&inf, 0, sizeof inf); rvs.push_back(C_GetInfo(&inf));
+		CK_FUNCTION_LIST_PTR fl = NULL; rvs.push_back(C_GetFunctionList(&fl));
+		CK_SLOT_INFO si; memset(&si, 0, sizeof si); rvs.push_back(C_GetSlotInfo(sl, &si));
+		CK_TOKEN_INFO ti; memset(&ti, 0, sizeof ti); rvs.push_back(C_GetTokenInfo(sl, &ti));
+		CK_SLOT_ID ev = 0; rvs.push_back(C_WaitForSlotEvent(CKF_DONT_BLOCK, &ev, NULL_PTR));
+		ol = 4096; rvs.push_back(C_GetOperationState(h, o1.data(), &ol));
+		rvs.push_back(C_SetOperationState(h, dp, d.size(), k, k));
+		CK_MECHANISM m = { CKM_RSA_PKCS, NULL_PTR, 0 };
+		rvs.push_back(C_SignRecoverInit(h, &m, k)); ol = 4096; rvs.push_back(C_SignRecover(h, dp, d.size(), o1.data(), &ol));
+		rvs.push_back(C_VerifyRecoverInit(h, &m, k)); ol = 4096; rvs.push_back(C_VerifyRecover(h, dp, d.size(), o1.data(), &ol));
+		ol = 4096; rvs.push_back(C_DigestEncryptUpdate(h, dp, d.size(), o1.data(), &ol));
+		ol = 4096; rvs.push_back(C_DecryptDigestUpdate(h, dp, d.size(), o1.data(), &ol));
+		ol = 4096; rvs.push_back(C_SignEncryptUpdate(h, dp, d.size(), o1.data(), &ol));
+		ol = 4096; rvs.push_back(C_DecryptVerifyUpdate(h, dp, d.size(), o1.data(), &ol));
+		rvs.push_back(C_GetFunctionStatus(h)); rvs.push_back(C_CancelFunction(h));
+		rvs.push_back(C_GetSessionInfo(h, NULL_PTR)); rvs.push_back(C_GetMechanismInfo(sl, (CK_MECHANISM_TYPE)k, NULL_PTR));
+		CK_ULONG n = 0; rvs.push_back(C_GetSlotList(CK_TRUE, NULL_PTR, &n)); rvs.push_back(C_GetMechanismList(sl, NULL_PTR, &n));
+		bool overrun = false; for (size_t i = 4096; i < o1.size(); i++) if (o1[i] != 0xA5) overrun = true;
+		fprintf(out, "= 0 %lu", h); for (CK_RV r : rvs) fprintf(out, " %lu", r); if (overrun) fprintf(out, " !OVERRUN"); fprintf(out, "\n");
+	}
 	else if (op == "random") { CK_ULONG h = H(1); CK_ULONG n = N(2); Bytes b(n + 8, 0xA5); CK_RV rv = C_GenerateRandom(h, b.data(), n); fprintf(out, "= %lu %lu %lu\n", rv, h, n); }
 	else if (op == "seed") { CK_ULONG h = H(1); bool dn; Bytes d = dataArg(t[2], &dn); fprintf(out, "= %lu %lu\n", C_SeedRandom(h, d.empty() ? (CK_BYTE_PTR)"" : d.data(), d.size()), h); }
 	else fprintf(out, "= BADOP\n");
@@ -790,7 +859,17 @@ int main(int argc, char** argv) {
 	if (argc > 1 && strcmp(argv[1], "-i") == 0) {
 		// interactive: one op per line from stdin, answered before the next line is read (C15 / C18: a coordinator interleaves several such processes)
 		std::string line;
-		while (std::getline(std::cin, line)) { if (!isOp(line)) continue; opNo++; runLine(line); }
+		long lastCount = 0; bool armNext = false;
+		while (std::getline(std::cin, line)) {
+			if (!isOp(line)) continue;
+			if (line.rfind("pauseat ", 0) == 0) {      // pauseat k: the NEXT op counts its file operations and waits at the k-th (k = 0: only count)
+				fsPauseAt = atol(line.c_str() + 8); armNext = true; printf("%s\n= 0\n", line.c_str()); fflush(stdout); continue; }
+			if (line == "fscount") { printf("fscount\n= %ld\n", lastCount); fflush(stdout); continue; }
+			opNo++;
+			if (armNext) { fsCount = 0; fsLogLen = 0; fsLog[0] = 0; fsArmed = 1; }
+			runLine(line);
+			if (armNext) { fsArmed = 0; lastCount = fsCount; fsPauseAt = 0; armNext = false; }
+		}
 		return 0;
 	}
 	{ std::string line; while (std::getline(*in, line)) gLines.push_back(line); }
